@@ -124,16 +124,34 @@ func (o *Obligation) Script(extra ...*Term) string {
 	return Script(o.asserts(true, extra...), true)
 }
 
+// ScriptSeeded: goal-directed instantiation (smaller query, tried first).
+func (o *Obligation) ScriptSeeded(extra ...*Term) string {
+	termMu.Lock()
+	defer termMu.Unlock()
+	o.seeded = true
+	defer func() { o.seeded = false }()
+	return Script(o.asserts(true, extra...), true)
+}
+
 // asserts builds the query; sliced=false keeps every assumption (used for replay
 // models, whose inputs must satisfy all preconditions).
 func (o *Obligation) asserts(sliced bool, extra ...*Term) []*Term {
 	asserts := append([]*Term{}, o.Gen.Defs[:o.NDefs]...)
 	asserts = append(asserts, extra...)
-	asserts = append(asserts, o.Reach)
+	reach := o.Reach
+	if o.caseSub != nil {
+		reach = And(o.Reach, o.caseSub.Cond)
+	}
+	asserts = append(asserts, reach)
 	if !o.MustSat {
 		asserts = append(asserts, skolemNeg(o.Goal))
 	} else if o.Goal != nil {
 		asserts = append(asserts, o.Goal)
+	}
+	if o.caseSub != nil {
+		for i, a := range asserts {
+			asserts[i] = Subst(a, o.caseSub.Sub)
+		}
 	}
 	sl := asserts
 	if sliced {
@@ -148,7 +166,11 @@ func (o *Obligation) asserts(sliced bool, extra ...*Term) []*Term {
 				sl[i] = skolemPos(a)
 			}
 		}
-		sl = Instantiate(sl, 2, 48)
+		if o.seeded {
+			sl = InstantiateSeeded(sl, 3, 48, len(extra)+2)
+		} else {
+			sl = Instantiate(sl, 2, 48)
+		}
 	}
 	return sl
 }
@@ -510,11 +532,28 @@ func writeJSON(path string, v any) {
 }
 
 func decide(o *Obligation, cfg *SolverCfg, known []KnownFinding, prop string, opts *CheckOpts) *oblResult {
+	var res *SolveResult
+	if !o.MustSat {
+		// stage 0: goal-directed instantiation, z3-new only, short limit
+		s0 := o.ScriptSeeded()
+		if opts.KeepSMT != "" {
+			os.WriteFile(filepath.Join(opts.KeepSMT, sanitize(o.Name)+".seeded.smt2"), []byte(s0), 0o644)
+		}
+		c0 := *cfg
+		c0.CrossCheck = false
+		c0.TimeoutS = 0
+		if r0 := SolveFirstOnly(&c0, s0); r0.Status == "unsat" {
+			r0.Solver = "z3-new"
+			if !cfg.CrossCheck {
+				return &oblResult{O: o, Res: r0, Status: "proved"}
+			}
+		}
+	}
 	script := o.Script()
 	if opts.KeepSMT != "" {
 		os.WriteFile(filepath.Join(opts.KeepSMT, sanitize(o.Name)+".smt2"), []byte(script), 0o644)
 	}
-	res := Solve(cfg, script, o.Name)
+	res = Solve(cfg, script, o.Name)
 	r := &oblResult{O: o, Res: res}
 	if res.Status == "disagree" || res.Status == "error" {
 		r.Status = "machinery"
@@ -531,6 +570,15 @@ func decide(o *Obligation, cfg *SolverCfg, known []KnownFinding, prop string, op
 	if res.Status == "unsat" {
 		r.Status = "proved"
 		return r
+	}
+	// path split: decide the obligation once per incoming edge of its join block,
+	// with the merged constants replaced by that predecessor's values
+	if !o.MustSat && res.Status != "sat" {
+		if rs := decideSplit(o, cfg); rs != nil {
+			r.Status = "proved"
+			r.Res = rs
+			return r
+		}
 	}
 	// known findings: prove pre ∧ ¬W1..¬Wn ⇒ O
 	var ws []*Term
@@ -921,4 +969,35 @@ func resultType(sig *types.Signature) types.Type {
 		return sig.Results().At(0).Type()
 	}
 	return sig.Results()
+}
+
+func decideSplit(o *Obligation, cfg *SolverCfg) *SolveResult {
+	cases := o.Gen.mergeCases[o.Reach]
+	if len(cases) < 2 || len(cases) > 6 {
+		return nil
+	}
+	var total int64
+	for _, mc := range cases {
+		termMu.Lock()
+		o.caseSub = mc
+		o.seeded = true
+		s0 := Script(o.asserts(true), true)
+		o.seeded = false
+		o.caseSub = nil
+		termMu.Unlock()
+		r0 := SolveFirstOnly(cfg, s0)
+		if r0.Status != "unsat" {
+			termMu.Lock()
+			o.caseSub = mc
+			s1 := Script(o.asserts(true), true)
+			o.caseSub = nil
+			termMu.Unlock()
+			r0 = Solve(cfg, s1, o.Name+"+split")
+			if r0.Status != "unsat" {
+				return nil
+			}
+		}
+		total += r0.Ms
+	}
+	return &SolveResult{Status: "unsat", Solver: "z3-new", Ms: total, Output: fmt.Sprintf("unsat (decided per incoming edge, %d cases)", len(cases)), All: map[string]string{"z3-new": "unsat"}}
 }
